@@ -133,7 +133,8 @@ def make_run(seq, shape="plu", reach=False):
     """The same events, but delivered through real channels to the real PowerManagingActor._run select loop and the real
     _bounds_tracker task (only the construction of the battery pool in _add_system_bounds_tracker is replaced by a harness
     bounds channel).  Extra events: 'stale_partial' = PartialFailure for the FIRST request that was sent (arriving late),
-    'success', 'sleep62' (every proposal made so far expires through the real 1 s timer)."""
+    'success', 'sleep62' (every proposal made so far expires through the real 1 s timer), 'sleep31' (two of them expire what was
+    proposed before the first, not what was proposed in between)."""
     import asyncio
     from frequenz.sdk.microgrid._power_managing._base_classes import ReportRequest, _Report
 
@@ -188,9 +189,9 @@ def make_run(seq, shape="plu", reach=False):
                 elif ev == "success" and all_requests:
                     r = all_requests[-1]
                     await rsend.send(pd.Success(request=r, succeeded_power=r.power, succeeded_components=set(IDS), excess_power=Power.zero()))
-                elif ev == "sleep62":
-                    await asyncio.sleep(62.0)
-                    continue
+                elif ev in ("sleep62", "sleep31"):
+                    # whatever the expiry timer sends during the sleep is checked like any other request, right after it
+                    await asyncio.sleep(62.0 if ev == "sleep62" else 31.0)
                 await asyncio.sleep(0.01)
                 new_reqs = await _take(req_rx)
                 for m in await _take(reg_rx):
@@ -247,7 +248,7 @@ def instances(tier):
     for s in extra:
         out.append(I("-".join(s), "make", (s, False, "plu"), f"events {s}; proposals fully specified", budget_s=300, validate_every=200))
     runs = [("reg", "op", "bounds"), ("op", "reg", "bounds"), ("reg", "op", "bounds", "stale_partial"),
-            ("reg", "op", "sleep62", "bounds"), ("reg", "bounds", "op", "partial")]
+            ("reg", "op", "sleep62", "bounds"), ("reg", "bounds", "op", "partial"), ("reg", "sleep31", "op", "sleep31", "bounds")]
     if tier != "quick":
         runs += [("reg", "op", "reg", "stale_partial"), ("reg", "op", "success", "bounds"), ("op", "reg", "bounds", "bounds")]
     for s in runs:
